@@ -557,8 +557,8 @@ def self_test():
 
 
 SUBCHECKS = [
-    SubCheck("cut_small", cut_case(big=False), fn, quick=1600, thorough=4000),
-    SubCheck("cut_large", cut_case(big=True), fn, quick=160, thorough=700, watchdog=(60, 240)),
+    SubCheck("cut_small", cut_case(big=False), fn, quick=1000, thorough=2500),
+    SubCheck("cut_large", cut_case(big=True), fn, quick=80, thorough=400, watchdog=(60, 240)),
 ]
 
 MATCHERS = {"kf_sphere_two_adjacent_singularities": kf_sphere_two_adjacent_singularities}
